@@ -164,7 +164,7 @@ Frame.lookup = lookup3
 # class call with symbolic args for repo classes: route to __new__
 _prev_call = Engine.call
 def call3(self, f, args, kwargs):
-    if isinstance(f, type) and f.__module__ in self.interp_modules and any(symi.is_sym(a) for a in args):
+    if isinstance(f, type) and f not in self.stubs and f.__module__ in self.interp_modules and any(symi.is_sym(a) for a in args):
         new = f.__new__
         if isinstance(new, types.FunctionType):
             return self.call_interp(new, [f] + list(args), kwargs)
